@@ -180,18 +180,21 @@ def countInsert (m : List (Nat × Nat)) (k : Nat) : List (Nat × Nat) :=
   if m.any (·.1 == k) then m.map fun kv => if kv.1 == k then (kv.1, kv.2 + 1) else kv
   else m ++ [(k, 1)]
 
-/-- toast.go:GetTOASTVerboseInfo; `none` = nil -/
-def getTOASTVerboseInfo (toastRelID : Nat) (data : Bytes) : M (Option VerboseInfo) := do
-  let chunks ← readTOASTTable data
-  if chunks.length = 0 then return none
+/-- the body of GetTOASTVerboseInfo after the `len(chunks) == 0` check -/
+def buildInfo (toastRelID : Nat) (chunks : List Chunk) : VerboseInfo :=
   let groups := chunks.foldl groupInsert []
   let totalSize := (chunks.map (·.data.length)).sum
   let vals := groups.map fun g => (⟨g.1, g.2.length, (g.2.map (·.data.length)).sum⟩ : ValueInfo)
-  return some {
-    toastRelID, totalChunks := chunks.length, uniqueValues := groups.length, totalSize,
+  { toastRelID, totalChunks := chunks.length, uniqueValues := groups.length, totalSize,
     avgNum := totalSize, avgDen := chunks.length,
     maxChunksPerValue := (vals.map (·.numChunks)).foldl max 0,
     distribution := (vals.map (·.numChunks)).foldl countInsert [],
     values := vals }
+
+/-- toast.go:GetTOASTVerboseInfo; `none` = nil -/
+def getTOASTVerboseInfo (toastRelID : Nat) (data : Bytes) : M (Option VerboseInfo) := do
+  let chunks ← readTOASTTable data
+  if chunks.length = 0 then return none
+  return some (buildInfo toastRelID chunks)
 
 end PgVerif.Model.Toast
